@@ -1,6 +1,11 @@
 //! engine binary skeleton: see ../CONTRIBUTING.md
 use vmon::report::Report;
 
+mod c16;
+mod c17;
+mod common;
+use common::Out;
+
 pub struct Args {
     pub engine: String,
     pub seed: u64,
@@ -30,11 +35,10 @@ fn parse_args() -> Args {
     args
 }
 
-/// run `f(shard)` on `n` threads and merge the reports
-#[allow(dead_code)]
-fn sharded<F>(n: usize, f: F) -> Report
+/// run `f(shard)` on `n` threads and merge the outputs
+fn sharded<F>(n: usize, f: F) -> Out
 where
-    F: Fn(u64) -> Report + Send + Sync + 'static,
+    F: Fn(u64) -> Out + Send + Sync + 'static,
 {
     let f = std::sync::Arc::new(f);
     let hs: Vec<_> = (0..n)
@@ -48,28 +52,50 @@ where
         })
         .collect();
     let mut it = hs.into_iter();
-    let mut rep = it.next().unwrap().join().expect("shard thread panicked");
+    let mut out = it.next().unwrap().join().expect("shard thread panicked");
     for h in it {
-        rep.merge(h.join().expect("shard thread panicked"));
+        out.merge(h.join().expect("shard thread panicked"));
     }
-    rep
+    out
 }
 
 fn main() {
     vmon::panics::install();
     let args = parse_args();
     let t0 = std::time::Instant::now();
-    let _quick = args.tier != "thorough";
+    let quick = args.tier != "thorough";
+    let seed = args.seed;
+    let n = args.threads.max(1);
+    let ns = n as u64;
     let mut rep: Report = match args.engine.as_str() {
-        // "<engine-name>" => ...,
+        "c16-disconnect" => {
+            let total: u64 = if quick { 320 } else { 30_000 };
+            let mut out = sharded(n, move |s| c16::run_shard(seed, s, ns, total, quick));
+            c16::finish(&mut out);
+            out.rep
+        }
+        "c17-shutdown" => {
+            let total: u64 = if quick { 160 } else { 10_000 };
+            let mut out = sharded(n, move |s| c17::run_shard(seed, s, ns, total));
+            c17::finish(&mut out, seed);
+            out.rep
+        }
         _ => usage(),
     };
+    // the `panicking` handler's panics are injected on purpose; anything else is
+    // an unexpected panic somewhere in the process
+    let mut injected = 0u64;
     for p in vmon::panics::take_unexpected() {
+        if p.message.starts_with(common::INJECTED) {
+            injected += 1;
+            continue;
+        }
         rep.violate(
             format!("{}:unexpected-panic", rep.property),
             serde_json::json!({"location": p.location, "message": p.message, "thread": p.thread}),
         );
     }
+    rep.count("injected_panics_seen_by_hook", injected);
     let mut j = rep.to_json();
     j["wall_s"] = serde_json::json!(t0.elapsed().as_secs_f64());
     j["seed"] = serde_json::json!(args.seed);
